@@ -21,6 +21,7 @@ from . import linsolve
 _ACTIVE = [False]
 USED_STUBS = set()
 EXACT_SQRT2 = [False]
+EXACT_SQRT_OF = set()  # per-job: plain constants whose np.sqrt is kept as the exact algebraic number (e.g. 1.5 for the von Mises factor)
 OPAQUE_INV_FROM = None  # when set to n: np.linalg.inv of a symbolic matrix of size >= n returns opaque fresh symbols (contract only)
 
 
@@ -597,6 +598,8 @@ class NpProxy:
         if _ACTIVE[0] and EXACT_SQRT2[0] and isinstance(x, (int, float)) and x == 2:
             # the Kelvin-Mandel factor as the exact algebraic number r > 0, r^2 = 2 (per-job switch): identities hold modulo r^2 = 2
             return root(as_sym(2), 2)
+        if _ACTIVE[0] and EXACT_SQRT_OF and isinstance(x, (int, float)) and x in EXACT_SQRT_OF:
+            return root(as_sym(Fraction(x)), 2)
         if isinstance(x, Sym):
             return root(x, 2)
         if isinstance(x, _np.ndarray) and x.dtype == object:
